@@ -197,11 +197,12 @@ Section Column.
   (* BaseColumn.unset *)
   Definition col_unset (c : refcol) (r : nat) : res refcol := col_set c r (default (rc_kind c)).
 
-  (* BaseColumn.clear -- NOT overridden by BaseReferenceColumn: the relation keeps its entries *)
+  (* clear as it was BEFORE /repo commit 474dc3f (BaseColumn.clear, not overridden by BaseReferenceColumn): the
+     relation kept its entries.  Kept for the regression examples of Props/C10.v only. *)
   Definition col_clear (c : refcol) : refcol :=
     {| rc_kind := rc_kind c; rc_data := [default (rc_kind c)]; rc_inv := rc_inv c |}.
 
-  (* the repaired clear (notes/proposed_fixes/C10-clear-resets-relation.diff) *)
+  (* BaseReferenceColumn.clear (since 474dc3f): the cells and the relation are both reset *)
   Definition col_clear_fixed (c : refcol) : refcol :=
     {| rc_kind := rc_kind c; rc_data := [default (rc_kind c)]; rc_inv := [] |}.
 
@@ -233,7 +234,10 @@ Section Column.
   Definition run_from (fixed_clear : bool) (c : refcol) (ops : list op) : res refcol :=
     fold_left (fun acc o => bind acc (fun c' => apply_op fixed_clear c' o)) ops (Ok c).
 
-  Definition run (k : kind) (ops : list op) : res refcol := run_from false (col_new k) ops.
+  (* the code as it is: clear resets the relation *)
+  Definition run (k : kind) (ops : list op) : res refcol := run_from true (col_new k) ops.
+  (* the code before 474dc3f *)
+  Definition run_old (k : kind) (ops : list op) : res refcol := run_from false (col_new k) ops.
 
   (* _raw_get_without *)
   Definition raw_get_without (c : refcol) (r : nat) (targets : list Z) : res cell :=
@@ -296,7 +300,7 @@ Section Column.
      (vals: one value list per own column, in order).  Nothing is done about the columns that target T. *)
   Definition load_column (c : refcol) (rows : list nat) (vals : list cell) : res refcol :=
     fold_left (fun acc rv => bind acc (fun c' => col_set c' (fst rv) (snd rv))) (combine rows vals)
-              (Ok (col_clear c)).
+              (Ok (col_clear_fixed c)).
 
   Fixpoint replace_cols (cols : list wcol) (rows : list nat) (vals : list (list cell)) : res (list wcol) :=
     match cols with
